@@ -274,6 +274,39 @@ def mismatch_kind(got, exp, roe):
     return "selected-although-reference-not" if got else "not-selected-although-reference-selected"
 
 
+def check_selector_many(R, t, roe, vis):
+    """build once, evaluate on every value; any disagreement is re-examined (and named) by check_selector"""
+    sel = None
+    try:
+        with watchdog(2):
+            sel = build(t, roe)
+    except Exception:
+        pass
+    for vi in vis:
+        R.case(True, {"term": show(t), "raise_on_error": roe, "value": repr(VALUES[vi])} if R.cases < 2 else None)
+        if sel is not None:
+            v = VALUES[vi]
+            try:
+                with watchdog(2):
+                    try:
+                        got = bool(sel(v))
+                    except Timeout:
+                        raise
+                    except Exception as e:
+                        got = Raised(e)
+            except Timeout:
+                got = "NON-TERMINATION"
+            if same(got, eval_term(t, v, roe)):
+                continue
+        if check_selector(R, t, roe, vi) and sel is not None:
+            R.fail("Selector/result-depends-on-previous-calls", "selector %s raise_on_error=%r on value %r differs between a fresh "
+                   "and a used object" % (show(t), roe, VALUES[vi]), {"term": t, "raise_on_error": roe, "value_index": vi})
+
+
+def has_direct_ctx_child(t):
+    return any(c[0] == "ctx" for c in children(t))
+
+
 def check_selector(R, t, roe, vi):
     v = VALUES[vi]
     exp = eval_term(t, v, roe)
@@ -283,6 +316,9 @@ def check_selector(R, t, roe, vi):
     b = blame(t, v, roe)
     gb, eb = run_real(b, v, roe), eval_term(b, v, roe)
     fid = "%s/%s" % (node_kind(b), mismatch_kind(gb, eb, roe))
+    if isinstance(gb, tuple) and has_direct_ctx_child(b):
+        # the SelectContext works alone (blame would have descended otherwise) but cannot be nested as an object
+        fid = "SelectContext/nested-in-a-specification/" + mismatch_kind(gb, eb, roe)
     R.fail(fid, "selector %s raise_on_error=%r on value %r: got %r, reference %r (smallest disagreeing sub-term %s: %r vs %r)"
            % (show(t), roe, v, got, exp, show(b), gb, eb),
            {"term": t, "raise_on_error": roe, "value_index": vi, "value": repr(v), "blamed": b},
@@ -429,7 +465,8 @@ def check_filter(R, t, mode, roe, idxs):
     except Timeout:
         bad.append(("non-termination", "did not terminate"))
     except Exception as e:
-        bad.append(("constructor-raises-" + type(e).__name__, str(e)[:80]))
+        if check_selector(R, t, roe, idxs[0] if idxs else 0):      # names the construct that cannot be built
+            bad.append(("constructor-raises-" + type(e).__name__, str(e)[:80]))
     for kind, txt in bad:
         R.fail("Filter/" + kind, "Filter(%s) [%s, raise_on_error=%r] on flow %r: %s" % (show(t), mode, roe, flow, txt),
                {"term": t, "mode": mode, "raise_on_error": roe, "flow_indices": idxs},
@@ -495,51 +532,50 @@ def ref_key(listed, entries, cache):
     return frozenset(e for e in entries if is_selected(listed, e[0], cache))
 
 
-def state_of(ctx, p):
-    v = ref_sub(ctx, p)
-    if v is ABSENT:
-        return "absent", None
-    if isinstance(v, dict):
-        return "dict", None
-    return "scalar", scalar_sig(v)
+def path_states(c1, c2):
+    """(path, state in c1, state in c2) for every path present in either context, shortest first; states are
+    'A' absent, 'D' dictionary, or the JSON text of the scalar"""
+    m1, m2 = dict(ctx_entries(c1)), dict(ctx_entries(c2))
+    return [(p, m1.get(p, "A"), m2.get(p, "A")) for p in sorted(set(m1) | set(m2), key=lambda p: (len(p), p))]
 
 
-def all_paths(*ctxs):
-    ps = set()
-    for c in ctxs:
-        ps.update(e[0] for e in ctx_entries(c))
-    return sorted(ps, key=lambda p: (len(p), p))
+def _kind(state):
+    return {"A": "absent", "D": "dict"}.get(state, "scalar")
+
+
+def parent_kind(listed, p):
+    """kind ('g' / 'm') of the longest listed proper prefix of p"""
+    for n in range(len(p) - 1, -1, -1):
+        if p[:n] in listed:
+            return listed[p[:n]]
+    return None
 
 
 def classify_merge(listed, c1, c2):
     """c1, c2 share a real group although they disagree on a selected path: name the clause"""
-    for p in all_paths(c1, c2):
-        if not is_selected(listed, p):
+    for p, s1, s2 in path_states(c1, c2):
+        if s1 == s2 or not is_selected(listed, p):
             continue
-        s1, s2 = state_of(c1, p), state_of(c2, p)
-        if s1 == s2:
-            continue
+        k1, k2 = _kind(s1), _kind(s2)
         deeper = any(len(q) > len(p) and q[:len(p)] == p for q in listed)
-        where = "group_by-entry" if p in listed else "unlisted-path-inside-group_by-entry"
-        if "scalar" in (s1[0], s2[0]) and deeper:
+        where = "group_by-entry-inside-merge" if parent_kind(listed, p) == "m" else "inside-group_by"
+        if "scalar" in (k1, k2) and deeper:
             # a scalar found where a deeper listed path expects a dictionary
-            return "GroupBy/wrong-merge/scalar-dropped-at-%s-above-deeper-listed-key" % where, p
-        kind = "scalar-values-differ" if s1[0] == s2[0] else "-vs-".join(sorted([s1[0], s2[0]]))
-        return "GroupBy/wrong-merge/%s-at-%s%s" % (kind, where, "-above-deeper-listed-key" if deeper else ""), p
+            return "GroupBy/wrong-merge/scalar-above-listed-key-dropped/" + where, p
+        kind = "scalar-values-differ" if k1 == k2 else "-vs-".join(sorted([k1, k2]))
+        return "GroupBy/wrong-merge/%s/%s%s" % (kind, where, "/above-listed-key" if deeper else ""), p
     return "GroupBy/wrong-merge/unclassified", None
 
 
 def classify_split(listed, c1, c2):
     """c1, c2 agree on every selected path but are in different real groups: name the clause"""
-    for p in all_paths(c1, c2):
-        if is_selected(listed, p):
+    for p, s1, s2 in path_states(c1, c2):
+        if (s1 == "D") == (s2 == "D") or is_selected(listed, p):
             continue
-        d1, d2 = state_of(c1, p)[0] == "dict", state_of(c2, p)[0] == "dict"
-        below = any(kind == "g" and len(q) > len(p) and q[:len(p)] == p for q, kind in listed.items())
-        if d1 != d2 and below:
-            where = "merge-entry" if p in listed else "unlisted-path"
-            return "GroupBy/split/dict-shell-of-unselected-%s-above-group_by-entry" % where, p
-    return "GroupBy/split/contexts-agree-on-every-selected-path", None
+        if any(kind == "g" and len(q) > len(p) and q[:len(p)] == p for q, kind in listed.items()):
+            where = "merge-entry-inside-group_by" if parent_kind(listed, p) == "g" else "inside-merge"
+            return "GroupBy/split/empty-shell-of-unselected-path/" + where, p
+    return "GroupBy/split/agree-on-every-selected-path", None
 
 
 def gb_arg(keys):
@@ -581,12 +617,16 @@ def partition_check(R, group_by, merge, ctxs, entries, order, replayable_ctxs=Tr
         R.fail("GroupBy/init-non-termination", "GroupBy(%r, %r) does not terminate" % (group_by, merge),
                {"group_by": group_by, "merge": merge})
         return "bad"
+    except Exception as e:
+        R.fail("GroupBy/init-raises-" + type(e).__name__, "GroupBy(group_by=%r, merge=%r) raises %s: %s"
+               % (gb_arg(group_by), gb_arg(merge), type(e).__name__, str(e)[:100]), {"group_by": group_by, "merge": merge})
+        return "bad"
     what = "GroupBy(group_by=%r, merge=%r)" % (gb_arg(group_by), gb_arg(merge))
     values = []
     for tag, i in enumerate(order):
         c = ctxs[i]
         values.append(tag if c is None else (tag, c))        # None stands for a value without context
-    before = copy.deepcopy(values)
+    before = json.dumps(values)
     try:
         with watchdog(10):
             for v in values:
@@ -603,7 +643,7 @@ def partition_check(R, group_by, merge, ctxs, entries, order, replayable_ctxs=Tr
         return "bad"
     ok = True
     rp = {"fn": "replay_partition", "args": [group_by, merge, [ctxs[i] for i in order]]} if replayable_ctxs and len(order) <= 40 else None
-    if values != before:
+    if json.dumps(values) != before:
         ok = False
         R.fail("GroupBy/fill-changes-the-filled-values", what + ": the filled values were modified", {"group_by": group_by, "merge": merge}, rp)
     # the groups hold exactly the filled values, each once, in arrival order
@@ -726,17 +766,17 @@ def enum_terms(leaves, depth, maxlen):
     return cur
 
 
-def rand_term(rng, depth, leaves):
+def rand_term(rng, depth, leaves, p_ctx=0.0):
     if depth == 0 or rng.random() < 0.25:
         r = rng.random()
-        if r < 0.12:
+        if r < p_ctx:
             return ["ctx", rng.choice(CTX_KEYS), rng.choice(sorted(PREDS))]
         t = ["L", rng.choice(leaves)]
         return ["S", t] if r > 0.9 else t
     k = rng.choice(["or", "or", "Or", "and", "and", "And", "not", "not", "S"])
     if k in ("not", "S"):
-        return [k, rand_term(rng, depth - 1, leaves)]
-    return [k, [rand_term(rng, depth - 1, leaves) for _ in range(rng.choice([0, 1, 1, 2, 2, 2, 3]))]]
+        return [k, rand_term(rng, depth - 1, leaves, p_ctx)]
+    return [k, [rand_term(rng, depth - 1, leaves, p_ctx) for _ in range(rng.choice([0, 1, 1, 2, 2, 2, 3]))]]
 
 
 def term_depth(t):
@@ -755,6 +795,11 @@ def gen_values(alphabet, depth, scalars):
     return out
 
 
+def reversed_keys(c):
+    """an equal dictionary whose keys were inserted in reverse order at every level"""
+    return {k: (reversed_keys(v) if isinstance(v, dict) else v) for k, v in reversed(list(c.items()))}
+
+
 def ctx_size(c):
     return len(json.dumps(c))
 
@@ -766,10 +811,10 @@ def enum_paths(alphabet, depth):
     return ps
 
 
-def enum_keysets(paths, maxkeys):
-    """every assignment of group_by / merge to the root and to at most maxkeys other paths"""
+def enum_keysets(paths, maxkeys, minkeys=0):
+    """every assignment of group_by / merge to the root and to minkeys..maxkeys other paths"""
     for root in ("g", "m"):
-        for n in range(maxkeys + 1):
+        for n in range(minkeys, maxkeys + 1):
             for chosen in itertools.combinations(paths, n):
                 for kinds in itertools.product("gm", repeat=n):
                     gb = ([""] if root == "g" else []) + [p for p, k in zip(chosen, kinds) if k == "g"]
@@ -858,9 +903,7 @@ def body(R):
             % (len(terms2), [l.split(":", 1)[1] or '""' for l in leaves2], len(vals_idx)), True)
     for t in terms2:
         for roe in (True, False):
-            for vi in vals_idx:
-                R.case(True, {"term": show(t), "raise_on_error": roe, "value": repr(VALUES[vi])})
-                check_selector(R, t, roe, vi)
+            check_selector_many(R, t, roe, vals_idx)
 
     # ---- 2. depth 3 over three-valued constant leaves
     abstract = ["f:true", "f:false", "r:boom1"]
@@ -883,23 +926,20 @@ def body(R):
             % ("all" if th else "every third of the", len(d2_only), len(terms3)), th)
     for t in terms3:
         for roe in (True, False):
-            R.case(True)
-            check_selector(R, t, roe, 10)
+            check_selector_many(R, t, roe, [10])
 
-    # ---- 3. random depth <= 3 with every leaf kind, object forms, SelectContext leaves
-    n_rand = 40000 if th else 2500
+    # ---- 3. random depth <= 3 with every leaf kind and object forms; 3b the same with SelectContext leaves
     all_leaves = sorted(LEAVES)
-    R.scope("Selector/And/Or/Not/SelectContext vs eval_spec, random",
-            "%d random specifications of nesting <= 3 over %d leaves (7 strings incl. one on which contains raises, 6 classes, "
-            "7 total and 4 raising callables), SelectContext leaves, containers of length 0..3 given raw or as And / Or / "
-            "Selector objects built with the same flag; both raise_on_error settings; %d values"
-            % (n_rand, len(all_leaves), len(vals_idx)), False)
-    for _ in range(n_rand):
-        t = rand_term(rng, 3, all_leaves)
-        for roe in (True, False):
-            for vi in vals_idx:
-                R.case(True)
-                check_selector(R, t, roe, vi)
+    for n_rand, p_ctx in ((40000 if th else 2000, 0.0), (10000 if th else 600, 0.15)):
+        R.scope("Selector/And/Or/Not vs eval_spec, random" if not p_ctx else "SelectContext nested in specifications vs eval_spec, random",
+                "%d random specifications of nesting <= 3 over %d leaves (7 strings incl. one on which contains raises, 6 classes, "
+                "7 total and 4 raising callables)%s, containers of length 0..3 given raw or as And / Or / Selector objects built "
+                "with the same flag; both raise_on_error settings; %d values"
+                % (n_rand, len(all_leaves), " and SelectContext objects (10 keys x 8 predicates)" if p_ctx else "", len(vals_idx)), False)
+        for _ in range(n_rand):
+            t = rand_term(rng, 3, all_leaves, p_ctx)
+            for roe in (True, False):
+                check_selector_many(R, t, roe, vals_idx)
 
     # ---- 4. SelectContext exhaustively
     ctx2 = [c for c in gen_values(["a", "b"], 2, [0, 1]) if isinstance(c, dict)]
@@ -925,24 +965,26 @@ def body(R):
             "Filter(specification) and Filter(Selector(specification, raise_on_error)) for both flags; kept values compared by identity"
             % (n_f, len(VALUES)), False)
     for _ in range(n_f):
-        t = rand_term(rng, 2, all_leaves)
+        t = rand_term(rng, 2, all_leaves, 0.05)
         idxs = [rng.randrange(len(VALUES)) for _ in range(rng.randint(0, 7))]
         for mode, roe in (("raw", True), ("sel", True), ("sel", False)):
             R.case(True)
             check_filter(R, t, mode, roe, idxs)
 
     # ---- 6. GroupBy, exhaustive key sets over {a, b}, all contexts of nesting <= 2
-    ctxs = ctx2 + [None]                                       # None: a value without context
-    entries = [ctx_entries(c or {}) for c in ctxs]
-    order = list(range(len(ctxs))) + list(range(0, len(ctxs), 7))    # some contexts arrive twice
+    n2 = len(ctx2)
+    ctxs = ctx2 + [None] + [reversed_keys(c) for c in ctx2[::7]]   # None: a value without context; some contexts arrive
+    entries = [ctx_entries(c or {}) for c in ctxs]                 # twice, the second time with the keys inserted in reverse
+    order = list(range(len(ctxs)))
     rng.shuffle(order)
     paths = enum_paths(["a", "b"], 3)
-    maxkeys = 4 if th else 3
+    maxkeys = 4 if th else 2
     sc = R.scope("GroupBy.fill / make_include_exclude_tree / IncludeExcludeTree.get vs longest-listed-prefix partition",
                  "every assignment of group_by / merge to the root and to <= %d of the %d key paths of length <= 3 over {a, b} "
                  "(a key in exactly one of the two sets); those accepted by make_include_exclude_tree are filled with all %d "
                  "contexts of nesting <= 2 over {a, b} with scalars {0, 1} (scalars where a listed path expects a dictionary "
-                 "included) and one value without context, %d fills in shuffled order" % (maxkeys, len(paths), len(ctx2), len(order)), True)
+                 "included), one value without context and every seventh context once more with reversed key order, %d fills in shuffled "
+                 "order" % (maxkeys, len(paths), len(ctx2), len(order)), True)
     acc = 0
     for gb, mg in enum_keysets(paths, maxkeys):
         res = partition_check(R, gb, mg, ctxs, entries, order, replayable_ctxs=False)
@@ -950,6 +992,22 @@ def body(R):
             acc += 1
             R.case(True, {"group_by": gb, "merge": mg})
     sc["bound"] += "; %d key sets accepted" % acc
+
+    if not th:
+        # ---- 6b. (quick only; thorough does this exhaustively above) three listed keys, every fourth context
+        sub = list(range(0, n2 + 1, 4)) + list(range(n2 + 1, len(ctxs), 3))
+        order3 = sub + sub[::5]
+        rng.shuffle(order3)
+        sc = R.scope("GroupBy.fill / make_include_exclude_tree / IncludeExcludeTree.get vs longest-listed-prefix partition, 3 keys",
+                     "every assignment of group_by / merge to the root and to exactly 3 of the %d key paths of length <= 3 over "
+                     "{a, b}; accepted ones filled with every fourth of the contexts above (%d fills)" % (len(paths), len(order3)), False)
+        acc = 0
+        for gb, mg in enum_keysets(paths, 3, 3):
+            res = partition_check(R, gb, mg, ctxs, entries, order3, replayable_ctxs=False)
+            if res != "rejected":
+                acc += 1
+                R.case(True, {"group_by": gb, "merge": mg})
+        sc["bound"] += "; %d key sets accepted" % acc
 
     # ---- 7. GroupBy, random key sets over {a, b, c}, random contexts of nesting <= 3 with one-point variations
     n_ks = 2500 if th else 250
